@@ -341,7 +341,7 @@ fn run_shard(sh: &Shard, tier: Tier, f: &mut dyn FnMut(Group)) {
                 f(value_group(format!("signing-form/keys-{mask:04b}"), &V::obj(members), &[(0, 0), (1, 1)], false));
             }
             // names that merely contain / extend the special ones are ordinary members
-            for (i, k) in ["org.example.signatures", "unsigned_count", "signature", "signaturess", "Unsigned", "un", "m.hashes"].iter().enumerate() {
+            for (i, k) in ["org.example.signatures", "unsigned_count", "signature", "signaturess", "Unsigned", "un", "m.hashes", "age_ts", "outlier", "destinations"].iter().enumerate() {
                 let members = vec![(*k, V::Int(i as i64)), ("signatures", V::obj(vec![("x", V::Int(1))])), ("z", V::s("v"))];
                 f(value_group(format!("signing-form/near-miss-key-{i}"), &V::obj(members), &[(0, 0)], false));
                 f(value_group(format!("signing-form/near-miss-key-alone-{i}"), &V::obj(vec![(*k, V::Int(i as i64))]), &[(0, 0)], false));
